@@ -21,7 +21,7 @@ package samlidp
 //@ contract (*MemoryStore).Delete
 //@ contract (*MemoryStore).List
 //@ contract (*Server).GetServiceProvider
-//@ ensures[C19,C05] found: err == nil ==> result != nil
+//@ ensures[C19,C05,C06] found: err == nil ==> result != nil
 
 //@ -- ------------------------------------------------------------------------------------------
 //@ -- C19: sessions only for users who presented the current password or a stored, unexpired session cookie
